@@ -174,7 +174,9 @@ def select(atoms, df, sel):
         m = models[k % len(models)]
         col = "model" if fmt == "PDB" else "pdbx_PDB_model_num"
         sub_atoms = [a for a in atoms if a["model"] == m]
-        if kind == "model":
+        if col not in df.columns:
+            sub = df.copy()  # a dialect without the model item holds a single model: the selection is the whole table
+        elif kind == "model":
             sub = df[df[col].astype(int) == m].copy()
         else:
             sub = None
@@ -245,6 +247,20 @@ def judge(tag, atoms, df, feas, out):
     out += [D(x.sig.replace("C09:", "C10:"), x.what) for x in lay]
 
 
+def effective_dialect(case, atoms, for_cli=False):
+    """the drawn mmCIF dialect, with optional atom_site items left out only where their absence has one reading for
+    this table (no insertion code anywhere, a single model numbered 1, no alternate locations); the command-line
+    tools are documented to need the model column, so it stays for them"""
+    dialect = case.get("dialect")
+    if dialect and dialect.get("drop"):
+        drop = [d for d in dialect["drop"] if not ((d == "pdbx_PDB_ins_code" and any(a["icode"] for a in atoms))
+                                                   or (d == "pdbx_PDB_model_num" and (for_cli or len({a["model"] for a in atoms}) > 1 or atoms[0]["model"] != 1))
+                                                   or (d == "label_alt_id" and any(a["altloc"] for a in atoms)))]
+        dialect = dict(dialect, drop=drop)
+        case["_dropped"] = drop
+    return dialect
+
+
 def oracle(case):
     from rnapolis.parser_v2 import can_write_pdb, fit_to_pdb, parse_cif_atoms, parse_pdb_atoms, write_pdb
 
@@ -257,7 +273,8 @@ def oracle(case):
     if feas == "grey":
         case["_grey"] = True
         return []
-    sources = [("cif", parse_cif_atoms(atomtab.emit_cif(atoms, case.get("null", "?"), dialect=case.get("dialect"))))]
+    dialect = effective_dialect(case, atoms)
+    sources = [("cif", parse_cif_atoms(atomtab.emit_cif(atoms, case.get("null", "?"), dialect=dialect)))]
     if fits(atoms) and not case.get("oversize"):
         sources.append(("pdb", parse_pdb_atoms(atomtab.emit_pdb(atoms, always_model=True))))
     for tag, df in sources:
@@ -317,7 +334,7 @@ def oracle_splitter(case):
     os.makedirs(base)
     src = os.path.join(base, "input.cif")
     with open(src, "w") as f:
-        f.write(atomtab.emit_cif(atoms, case.get("null", "?"), dialect=case.get("dialect")))
+        f.write(atomtab.emit_cif(atoms, case.get("null", "?"), dialect=effective_dialect(case, atoms, for_cli=True)))
     outdir = os.path.join(base, "out")
     out = []
     old = sys.argv
@@ -518,8 +535,10 @@ def classify(case):
         labs.append("sub-table:" + case["select"][0])
     if case.get("cli") is True:
         labs.append("splitter-cli")
-    if case.get("dialect"):
+    if (case.get("dialect") or {}).get("label_alias"):
         labs.append("label-names-differ-from-author-names")
+    if (case.get("dialect") or {}).get("drop"):
+        labs.append("optional-items-left-out")
     if len({a["model"] for a in atoms}) >= 2:
         labs.append("models>=2")
     if any(a["icode"] for a in atoms):
@@ -545,7 +564,8 @@ def st_cases():
     })
     select = st.one_of(st.none(), st.tuples(st.sampled_from(["model", "groupby-model", "chain", "chains-alternate"]), st.integers(0, 3)).map(list))
     # label-side atom / residue names that differ from the author-side ones (old vs remediated nomenclature)
-    dialect = st.sampled_from([None, None, {"label_alias": True}])
+    dialect = st.sampled_from([None, None, {"label_alias": True}, {"drop": ["pdbx_PDB_ins_code"]}, {"drop": ["pdbx_PDB_model_num"]},
+                               {"drop": ["label_alt_id", "pdbx_PDB_ins_code", "pdbx_PDB_model_num"]}])
     edit = st.one_of(st.none(), st.none(), st.tuples(st.sampled_from(["chain", "number"]), st.integers(0, 3)).map(list))
     return st.fixed_dictionaries({"atoms": atomtab.st_tables(max_residues=4, max_atoms=5), "mod": mod, "null": st.sampled_from(["?", "."]),
                                   "select": select, "dialect": dialect, "edit_copy": edit})
